@@ -372,6 +372,7 @@ package asp
 
 // Operator precedence follows Python's: or < and < not < comparisons (0) < | < +,- < *,/,//,% < unary minus.
 //@ func (Operator).Precedence
+//@   pure
 //@   modifies nothing
 //@   ensures python_order [C16]: \
 //@      (o == Or ==> result == -3) && (o == And ==> result == -2) && (o == Not ==> result == -1) && \
@@ -399,6 +400,8 @@ package asp
 //@   opt panics=allowed
 //@   opt inline=off
 //@   opt precall=off
+//@   invariant "loop#1" tighter_run: 2 <= end && end <= len(ops) && \
+//@      (forall j int :: 1 <= j && j < end ==> ops[j].Op.Precedence() > ops[0].Op.Precedence())
 //@   callsite (scope).interpretOps right_operand_is_only_the_tighter_run [C16]: \
 //@      (len(ops) >= 2 && ops[0].Op.Precedence() < ops[1].Op.Precedence() && ops[0].Expr != nil && \
 //@       !(ops[0].Op.Lazy() && obj.IsTruthy() != (ops[0].Op == And)) && called("(scope).interpretExpression") && !called("(scope).interpretOp")) ==> \
